@@ -20,7 +20,7 @@
    [grid_times evs]: the times of the Grid events of evs. *)
 From Coq Require Import QArith ZArith Reals Qreals List Permutation Sorted.
 Import ListNotations.
-From TT Require Import Num NumR NumQ NumI ParamI Tree M_coalescent P_coalescent P_coalescent_param P_coalescent_tie.
+From TT Require Import Num NumR NumQ NumI ParamI Tree M_coalescent P_coalescent P_coalescent_param P_coalescent_tie P_coalescent_scale.
 From Coquelicot Require Import Coquelicot.
 Open Scope R_scope.
 
@@ -283,14 +283,9 @@ Print Assumptions C08_skyride_all_equal_is_constant.
 (* ------------------------------------------------------------------ scaling law *)
 (* All times (and their keys) and all population sizes multiplied by c > 0, growth rates divided
    by c: log p - (n-1) ln c, n-1 = sumN iscoal evs = the number of coalescent events.
-   PROVED for the constant, exponential, skyride and skygrid models.  scaling_law is PARTIAL: the
-   same statement for linear_lp (thetas and gridT times c) and pwexp_lp (theta, gridT times c,
-   growth / c) is not proved (it needs linN / peLnN homogeneity lemmas over the grid lookup):
-     linear_lp NumR thq' (map (Rmult c) th) (map (Rmult c) gridT) evs'
-       = linear_lp NumR thq th gridT evs - INR (sumN iscoal evs) * ln c
-     pwexp_lp NumR (c * theta) gq' (map (fun g => g / c) growth) (map (Rmult c) gridT) evs'
-       = pwexp_lp NumR theta gq growth gridT evs - INR (sumN iscoal evs) * ln c.
-   (The implementation is checked for all six directly, on every correspondence case.) *)
+   PROVED for all six models (linear and exponential grid models: proof/P_coalescent_scale.v, ties between
+   coalescent times and grid points allowed).  (The implementation is checked for all six directly, on every
+   correspondence case.) *)
 Theorem C08_scaling_law_constant : forall cq c (evs : list (event R)),
   0 < c -> keys_ok evs -> keys_ok (map (scale_ev cq c) evs) ->
   forall theta, 0 < theta ->
@@ -319,6 +314,49 @@ Theorem C08_scaling_law_skygrid : forall cq c (evs : list (event R)),
   = skygrid_lp NumR thetas evs - INR (sumN iscoal evs) * ln c.
 Proof. exact skygrid_scaling_l. Qed.
 Print Assumptions C08_scaling_law_skygrid.
+
+(* piecewise-exponential grid model: no hypothesis on the grid at all (ties, unsorted, unlinked) *)
+Theorem C08_scaling_law_pwexp : forall (cq : Q) (c : R) theta gq growth gridT (evs : list (event R)),
+  0 < c -> (0 < cq)%Q -> keys_ok evs -> 0 < theta ->
+  pwexp_lp NumR (c * theta) (map (fun g => (g / cq)%Q) gq) (map (fun g => g / c) growth)
+           (map (Rmult c) gridT) (map (scale_ev cq c) evs)
+  = pwexp_lp NumR theta gq growth gridT evs - INR (sumN iscoal evs) * ln c.
+Proof. exact pwexp_scaling. Qed.
+Print Assumptions C08_scaling_law_pwexp.
+(* piecewise-linear grid model: the grid hypotheses of C08_linear_eq_kingman, positive thetas (one per grid point
+   plus one), times >= 0 — exactly what makes N > 0 wherever the model takes a logarithm *)
+Theorem C08_scaling_law_linear : forall (cq : Q) (c : R) thq th gridT (evs : list (event R)),
+  0 < c -> (0 < cq)%Q -> keys_ok evs ->
+  StronglySorted Rlt (0 :: gridT) -> Permutation gridT (grid_times evs) ->
+  List.Forall (fun x => 0 < x) th -> length th = S (length gridT) ->
+  List.Forall (fun e => 0 <= etime e) evs ->
+  linear_lp NumR (map (Qmult cq) thq) (map (Rmult c) th) (map (Rmult c) gridT) (map (scale_ev cq c) evs)
+  = linear_lp NumR thq th gridT evs - INR (sumN iscoal evs) * ln c.
+Proof. exact linear_scaling. Qed.
+Print Assumptions C08_scaling_law_linear.
+(* "times >= 0" cannot be dropped: with a negative time N(t) = 1 + t is <= 0 where the model takes ln N *)
+Theorem C08_scaling_law_linear_needs_nonnegative_times_refuted :
+  exists (cq : Q) (c : R) thq th gridT (evs : list (event R)),
+    0 < c /\ (0 < cq)%Q /\ keys_ok evs /\ StronglySorted Rlt (0 :: gridT) /\ Permutation gridT (grid_times evs) /\
+    List.Forall (fun x => 0 < x) th /\ length th = S (length gridT) /\
+    linear_lp NumR (map (Qmult cq) thq) (map (Rmult c) th) (map (Rmult c) gridT) (map (scale_ev cq c) evs)
+    <> linear_lp NumR thq th gridT evs - INR (sumN iscoal evs) * ln c.
+Proof. exact linear_scaling_negative_time_refuted. Qed.
+Print Assumptions C08_scaling_law_linear_needs_nonnegative_times_refuted.
+(* at the entry points the correspondence uses (one exact rational factor) *)
+Theorem C08_scaling_law_pwexp_entry_point : forall (c theta : Q) growth grid tips coals, (0 < c)%Q -> (0 < theta)%Q ->
+  pwexp_q NumR (c * theta) (map (fun g => (g / c)%Q) growth) (map (Qmult c) grid) (map (Qmult c) tips) (map (Qmult c) coals)
+  = pwexp_q NumR theta growth grid tips coals - INR (length coals) * ln (Q2R c).
+Proof. exact pwexp_q_scaling. Qed.
+Print Assumptions C08_scaling_law_pwexp_entry_point.
+Theorem C08_scaling_law_linear_entry_point : forall (c : Q) thetas grid tips coals,
+  (0 < c)%Q -> StronglySorted Qlt (0%Q :: grid) ->
+  List.Forall (fun x => (0 < x)%Q) thetas -> length thetas = S (length grid) ->
+  List.Forall (fun q => (0 <= q)%Q) tips -> List.Forall (fun q => (0 <= q)%Q) coals ->
+  linear_q NumR (map (Qmult c) thetas) (map (Qmult c) grid) (map (Qmult c) tips) (map (Qmult c) coals)
+  = linear_q NumR thetas grid tips coals - INR (length coals) * ln (Q2R c).
+Proof. exact linear_q_scaling. Qed.
+Print Assumptions C08_scaling_law_linear_entry_point.
 
 (* ------------------------------------------------------------------ the runs of the correspondence *)
 
